@@ -21,9 +21,10 @@ def mc_cfg(c):
     consts = {"Variant": "{}", "MaxPackets": c["packets"], "Delay": c["delay"], "NC": c["nc"], "NS": c["ns"],
               "Budget": c["budget"], "ActionAlphabetId": '"%s"' % c["alphabet"], "MaxEvents": c["events"],
               "Cont": "TRUE" if c.get("cont", True) else "FALSE",
-              "KeepHist": "TRUE" if c.get("hist") else "FALSE"}
+              "KeepHist": "TRUE" if c.get("hist") else "FALSE",
+              "TraceSetId": '"%s"' % c.get("traces", "all")}
     return vlib.tlc_cfg("Spec", consts, c["invs"] + ["Inv_Log"] + (["Emit"] if c.get("hist") else []),
-                        "PROPERTY TimeMonotone")
+                        "PROPERTY TimeMonotone" + ("\nVIEW StateView" if c.get("view") else ""))
 
 
 ADDRESSED = {"PaddingSent", "TimerBegin", "TimerEnd"}
@@ -54,9 +55,9 @@ def scripts_to_scenarios(raw, c, seen, out):
     return n
 
 
-def M(packets, delay, nc, ns, budget, alphabet, events, invs, cont=True):
+def M(packets, delay, nc, ns, budget, alphabet, events, invs, cont=True, traces="all"):
     return dict(packets=packets, delay=delay, nc=nc, ns=ns, budget=budget, alphabet=alphabet, events=events,
-                invs=invs, cont=cont)
+                invs=invs, cont=cont, traces=traces)
 
 
 PLANS = {
@@ -67,31 +68,45 @@ PLANS = {
                       drv=["--no-machines", "--scenarios", 3000, "--max-packets", 200, "--burst", 300000])),
     "C15": dict(
         quick=dict(mc=[M(2, 1, 1, 1, 2, "block", 16, ["Inv_C15"], cont=False), M(1, 0, 1, 0, 2, "all", 12, ["Inv_C15"])],
-                   gen=[M(2, 1, 1, 1, 1, "block", 16, ["Inv_C15"], cont=False)],
+                   gen=[M(2, 1, 1, 1, 1, "block", 16, ["Inv_C15"], cont=False),
+                        # deep and narrow: three actions from {one non-bypassable block, replacing paddings},
+                        # client packets only, one behaviour per distinct model state (VIEW)
+                        dict(M(2, 1, 1, 0, 3, "replace", 18, ["Inv_C15"], traces="client"), view=True)],
                    drv=["--scenarios", 200, "--directed", 2]),
         thorough=dict(mc=[M(2, 1, 1, 1, 2, "all", 18, ["Inv_C15"], cont=False), M(2, 0, 1, 1, 3, "block", 16, ["Inv_C15"])],
-                      gen=[M(2, 1, 1, 1, 1, "block", 16, ["Inv_C15"], cont=False), M(1, 0, 1, 1, 2, "all", 12, ["Inv_C15"])],
+                      gen=[M(2, 1, 1, 1, 1, "block", 16, ["Inv_C15"], cont=False), M(1, 0, 1, 1, 2, "all", 12, ["Inv_C15"]),
+                           dict(M(2, 1, 1, 0, 3, "replace", 18, ["Inv_C15"], traces="client"), view=True),
+                           dict(M(2, 0, 1, 0, 4, "replace", 20, ["Inv_C15"], traces="client"), view=True)],
                       drv=["--scenarios", 2500, "--directed", 1], mech=300)),
     "C16": dict(
         quick=dict(mc=[M(1, 1, 1, 0, 3, "block", 14, ["Inv_C16"]), M(2, 0, 1, 0, 2, "block", 14, ["Inv_C16"])],
-                   gen=[M(1, 1, 1, 0, 2, "block", 14, ["Inv_C16"])],
+                   gen=[M(1, 1, 1, 0, 2, "block", 14, ["Inv_C16"]),
+                        dict(M(2, 1, 1, 0, 3, "replace", 18, ["Inv_C16"], traces="client"), view=True)],
                    drv=["--scenarios", 200, "--directed", 2]),
         thorough=dict(mc=[M(1, 1, 2, 0, 3, "block", 14, ["Inv_C16"]), M(2, 1, 1, 1, 3, "block", 16, ["Inv_C16"])],
-                      gen=[M(1, 1, 1, 0, 2, "block", 14, ["Inv_C16"]), M(1, 0, 2, 0, 2, "block", 14, ["Inv_C16"])],
+                      gen=[M(1, 1, 1, 0, 2, "block", 14, ["Inv_C16"]), M(1, 0, 2, 0, 2, "block", 14, ["Inv_C16"]),
+                           dict(M(2, 1, 1, 0, 3, "replace", 18, ["Inv_C16"], traces="client"), view=True),
+                           dict(M(2, 0, 1, 0, 4, "replace", 20, ["Inv_C16"], traces="client"), view=True)],
                       drv=["--scenarios", 2500, "--directed", 1], mech=300)),
     "C17": dict(
         quick=dict(mc=[M(1, 0, 1, 0, 3, "action", 14, ["Inv_C17"]), M(1, 1, 1, 1, 2, "action", 14, ["Inv_C17"])],
-                   gen=[M(1, 1, 1, 0, 2, "action", 14, ["Inv_C17"])],
+                   gen=[M(1, 1, 1, 0, 2, "action", 14, ["Inv_C17"]),
+                        dict(M(1, 1, 1, 0, 3, "action", 16, ["Inv_C17"], traces="client"), view=True),
+                        dict(M(1, 1, 2, 0, 3, "action", 16, ["Inv_C17"], traces="client"), view=True)],
                    drv=["--scenarios", 200, "--directed", 2]),
         thorough=dict(mc=[M(1, 0, 2, 0, 3, "action", 14, ["Inv_C17"]), M(2, 1, 1, 1, 3, "action", 16, ["Inv_C17"])],
-                      gen=[M(1, 1, 1, 0, 2, "action", 14, ["Inv_C17"]), M(1, 1, 2, 0, 2, "action", 14, ["Inv_C17"])],
+                      gen=[M(1, 1, 1, 0, 2, "action", 14, ["Inv_C17"]), M(1, 1, 2, 0, 2, "action", 14, ["Inv_C17"]),
+                           dict(M(2, 1, 1, 0, 3, "action", 18, ["Inv_C17"], traces="client"), view=True),
+                           dict(M(1, 1, 2, 0, 3, "action", 16, ["Inv_C17"], traces="client"), view=True)],
                       drv=["--scenarios", 2500, "--directed", 1], mech=300)),
     "C18": dict(
         quick=dict(mc=[M(1, 0, 1, 0, 4, "timer", 16, ["Inv_C18"]), M(1, 1, 1, 1, 3, "timer", 14, ["Inv_C18"])],
-                   gen=[M(1, 0, 1, 0, 3, "timer", 16, ["Inv_C18"])],
+                   gen=[M(1, 0, 1, 0, 3, "timer", 16, ["Inv_C18"]),
+                        dict(M(1, 0, 1, 0, 4, "timer", 18, ["Inv_C18"], traces="client"), view=True)],
                    drv=["--scenarios", 200, "--directed", 2]),
         thorough=dict(mc=[M(1, 0, 2, 0, 4, "timer", 16, ["Inv_C18"]), M(2, 1, 1, 1, 4, "timer", 18, ["Inv_C18"])],
-                      gen=[M(1, 0, 1, 0, 3, "timer", 16, ["Inv_C18"]), M(1, 0, 2, 0, 2, "timer", 16, ["Inv_C18"])],
+                      gen=[M(1, 0, 1, 0, 3, "timer", 16, ["Inv_C18"]), M(1, 0, 2, 0, 2, "timer", 16, ["Inv_C18"]),
+                           dict(M(2, 0, 1, 0, 4, "timer", 20, ["Inv_C18"], traces="client"), view=True)],
                       drv=["--scenarios", 2500, "--directed", 1], mech=300)),
     "C19": dict(
         quick=dict(mc=[M(1, 1, 1, 1, 2, "all", 12, ["Inv_C19"]), M(2, 1, 1, 0, 2, "block", 12, ["Inv_C19"])],
